@@ -487,8 +487,8 @@ def text_source_tokens(src, env, style, tr_key='tr'):
     if kind == 'str':
         toks = [quote(text, naked_ok=src.get('naked', False))]
     elif kind == 'eol':
-        if not eol_ok(text):
-            raise ModelError('not representable as :> : %r' % text)
+        if not eol_ok(text) or tr is not None:
+            raise ModelError('not representable as :> (or :> with a transformation): %r' % text)
         toks = [':>', ('raw', text), NL]
     elif kind == 'heredoc':
         if not heredoc_ok(text):
